@@ -664,6 +664,9 @@ impl PgSession {
         if cancelled {
             return Err(("57014".into(), "canceling statement due to user request".into()));
         }
+        if sqlmini::has_directive(sql, "sim_error_nonutf8") {
+            return Err(("42601".into(), "syntax error at or near \"\u{1}\"".into()));
+        }
         if sqlmini::has_directive(sql, "sim_error") {
             let tags = sqlmini::find_tags(sql.as_bytes());
             return Err(("XX000".into(), format!("sim_error {}", tags.first().map(|t| t.to_string()).unwrap_or_default())));
